@@ -236,6 +236,27 @@ def rws_separator_sees_no_whitespace(ctx, rule="C16.WS"):
     R.floor(rule, n, 1, "stores of the remaining text in next_inner")
 
 
+def rgen_generated_decoders(ctx):
+    """the code that #[rpc(server)] generates around these decoders reports their errors (checked over the generated
+    corpus of C17)"""
+    from . import c17
+    nd = c17.decode_errors_propagate(ctx, "C16.GEN")
+    ctx.R.floor("C16.GEN", nd, 40, "parameter reads in generated server closures")
+
+
+def rone_is_one_array_parse(ctx):
+    """Params::one::<T> is the parse of a one-element array and nothing else: there is no second, laxer parse of the whole
+    params text as T (`[1,2,3]` read as one Vec, a bare scalar read as the single parameter)"""
+    F, R = ctx.F, ctx.R
+    b = F.one(r"^jsonrpsee_types::params::Params::<'a>::one$")
+    bodies = F.nested(b)
+    ps = [c for x in bodies for c in x.calls_to(r"Params::<'a>::parse$|^serde_json::(de::)?from_str$")]
+    for x in bodies:
+        R.fn(x)
+    gas = [c.ga[-1] if c.ga else "?" for c in ps]
+    R.check(len(ps) == 1 and re.match(r"^\[T; 1\]$", gas[0] or ""), "C16.ONE", "one:single-array-parse", "one::<T> = parse::<[T; 1]>", "Params::one parses the params as %s: a shape that is not a one-element array is accepted when the whole text happens to deserialise as T" % gas, "%s:%d" % (b.file, b.lo))
+
+
 def rown_into_owned(ctx):
     """Params::into_owned (what async handlers receive) is the same text as the borrowed params"""
     from .common import into_owned_fieldwise
@@ -251,7 +272,20 @@ def rnext_reads_T(ctx):
     R.check(len(ni) == 1 and ni[0].ga and ni[0].ga[-1] == "T", "C16.NEXT", "next:reads-T", "next::<T> reads the element as T", "ParamsSequence::next::<T> does not read the element as T via next_inner::<T> (%s): a JSON null read with next() is reported as 'no more params' although a plain parse of the element succeeds" % ([c.ga for c in ni] or sorted({short(c.name()) for c in b.calls})[:4]), "%s:%d" % (b.file, b.lo))
 
 
-RULES = [r1_only_invalid_params, r2_poison_on_error, r3_exhaustion_table, r4_absent_params, rown_into_owned, rnext_reads_T, rws_separator_sees_no_whitespace]
+LIB_RULES = [r1_only_invalid_params, r2_poison_on_error, r3_exhaustion_table, r4_absent_params, rown_into_owned, rnext_reads_T, rws_separator_sees_no_whitespace, rone_is_one_array_parse]
+CONFIGS_QUICK = ["libs-all", "corpus"]
+CONFIGS_THOROUGH = ["libs-all", "facade-full", "corpus"]
+
+
+def _only(cfgs, rule):
+    def run(ctx):
+        if ctx.config in cfgs:
+            return rule(ctx)
+    run.__name__ = rule.__name__
+    return run
+
+
+RULES = [_only(("libs-all", "facade-full"), r) for r in LIB_RULES] + [_only(("corpus",), rgen_generated_decoders)]
 
 LEVEL_TEXT = (
     "Only the error-discipline slice of the property is claimed: the single error constructor (hence the single code "
